@@ -450,7 +450,7 @@ def rule_initial(ctx: Ctx):
               f"literals: {sorted(literals.items())}", literals=literals)
 
 
-def rule_once(ctx: Ctx):
+def rule_once(ctx: Ctx, rule: str = "C02.once"):
     """C02.once: de-duplication guards dominate insertion."""
     rep = ctx.rep
     fn = ctx.fn("CallbackSpecList._add")
@@ -464,9 +464,9 @@ def rule_once(ctx: Ctx):
                 guard = [b for b in p.events[: e.idx] if b.kind == "branch" and isinstance(b.term, ast.Compare)
                          and isinstance(b.term.ops[0], ast.In) and show(b.term.comparators[0]) == "self.items"
                          and show(b.term.left) == arg and b.x["taken"] is False]
-                rep.check(bool(guard), "C02.once", e.loc(), "a spec is appended only when it is not already in the list",
+                rep.check(bool(guard), rule, e.loc(), "a spec is appended only when it is not already in the list",
                           fn.key, norm_stmt(e.node))
-    rep.floor("C02.once", "spec insertions", n, 1)
+    rep.floor(rule, "spec insertions", n, 1)
     fn = ctx.fn("CallbacksExecutor.add")
     n = 0
     for p in ctx.paths(fn):
@@ -483,9 +483,9 @@ def rule_once(ctx: Ctx):
             marks = [c for c in p.events[: e.idx] if c.kind == "call" and isinstance(c.term.func, ast.Attribute)
                      and c.term.func.attr == "add" and show(c.term.func.value) in seen_sets and c.term.args
                      and show(c.term.args[0]) == "key"]
-            rep.check(bool(guard) and bool(marks), "C02.once", e.loc(),
+            rep.check(bool(guard) and bool(marks), rule, e.loc(),
                       "a wrapper is inserted only for a key not seen before, and the key is recorded", fn.key, norm_stmt(e.node))
-    rep.floor("C02.once", "wrapper insertions", n, 1)
+    rep.floor(rule, "wrapper insertions", n, 1)
 
 
 RULES = [rule_order, rule_view, rule_keys, rule_scope, rule_initial, rule_once]
